@@ -24,4 +24,8 @@ ENTRIES = {
   technique="bounded symbolic execution (engine A, z3): real saturation_mutagenesis with symbolic sequences, window, batch size and an uninterpreted model",
   text="saturation_mutagenesis/_edit_distance_one/_attribution_score run over the real predict with symbolic one-hot sequences and args, every window 0 <= start < end <= L (symbolic, enumerated by the solver) plus the default, symbolic batch size, tensor- and tuple-output uninterpreted models; z3 proves y0 == F(X), y_hat[n,c,p-start] == F(X[n] with p:=c, args[n]) for every output, and the attribution output equals the documented formula (centred difference, mean over selected targets, masked unless hypothetical) written independently in exact rationals for target None/int/slice.",
   note=COMMON_NOTE + " A <= 4, L <= 4, B <= 2 quick; A <= 5, L <= 6 thorough."),
+ "C08": dict(
+  technique="bounded symbolic execution (engine A, z3): real perturbation wrappers over real substitute/multisubstitute/shuffle/predict with an uninterpreted model and symbolic shuffle permutations",
+  text="marginalize, marginalize_annotations, ablate, ablate_annotations, space, apply_pairwise, apply_product run on symbolic sequences/motifs/args, symbolic positions, windows, spacing rows, annotation rows, seeds and batch size, with the RNG modelled as arbitrary permutations named by (seed, call index) and the model an uninterpreted row-wise function with 1-2 outputs; z3 proves 'before' == F(X, args) and every 'after'/product entry == F(the harness's own string-level edit of the example its index denotes, that example's args).",
+  note=COMMON_NOTE + " func = predict only; small shapes (B <= 2-3, L <= 4-6, n shuffles <= 3, <= 3 annotations, product sets <= 3x2(x2)); *_annotations without extra args."),
 }
